@@ -414,3 +414,13 @@ PROPS['C13']['assumptions'] = PROPS['C13']['assumptions'] + STEP_ASSUME
 PROPS['C13']['not_covered'] = ['"shutdown() never blocks" and "the worker thread eventually reaches the Shutdown command" are schedule / liveness properties and are NOT decided here']
 PROPS['C13']['explanation'] = PROPS['C13']['explanation'].replace('FIRST SENTENCE ONLY. ', '') + (' Verus (worker step, Shutdown case): the Shutdown command is answered Accepted, every command still queued behind it is answered '
                                 'ShuttingDown (loop invariant over the drained prefix), the queue ends empty, and the Store / weights are untouched.')
+
+# C01 and the UpdateWeight route: the only unguarded growth is the recorded finding F-C01-update (an explicitly larger weight / a
+# heavier value / an added time-to-live sent through UpdateWeight). Which weight put_or_update sends is pinned by its contract
+# (explicit, else recomputed, else existing + 24 when a ttl is added and existing - 24 when it is removed), so a change that makes
+# another route grow the total (e.g. a ttl removal) is a different violation and is reported under C01 as well.
+PROPS['C01']['verus'] = ['policy', 'lemmas', 'api']
+PROPS['C01']['verus_only']['api'] = [r'CacheD::put_or_update$']
+PROPS['C01']['floor'] = {'quick': 15, 'thorough': 19}
+PROPS['C01']['assumptions'] = PROPS['C01']['assumptions'] + API_ASSUME
+PROPS['C01']['explanation'] += (' The weight an upsert asks the worker to charge is pinned by verus:api::CacheD::put_or_update (removing a time-to-live only ever lowers the charged weight).')
